@@ -9,6 +9,8 @@
 #include "support.h"
 #include "elem.h"
 #include "state.h"
+#include "util.h"
+#include "stream.h"
 #include "verif.h"
 
 struct verif_in {
@@ -19,6 +21,8 @@ struct verif_in {
 	int by_disk[3], by_file[3], missing[3], incorrect; /* verdicts for the file, the link, the dir */
 	int par_by_disk[2];
 	unsigned level;
+	/* state_verify_content */
+	int ncopies, verdict[3];
 };
 VERIF_DECLARE_IN
 
@@ -26,7 +30,18 @@ VERIF_DECLARE_IN
 static int g_phase;
 static uint32_t g_crc_written;
 
+static unsigned g_created, g_joined, g_closed;
+static STREAM G_STREAMS[3];
 #ifdef VERIF_CBMC
+/* callees of state_verify_content by assumed contract: the k-th verification thread answers IN.verdict[k] */
+STREAM *sopen_read(const char *file) { (void)file; return &G_STREAMS[g_created < 3 ? g_created : 2]; }
+int sclose(STREAM *s) { (void)s; ++g_closed; return 0; }
+void thread_create(thread_id_t *thread, void *(*func)(void *), void *arg) { (void)func; (void)arg; *thread = (thread_id_t)(g_created + 1); ++g_created; }
+void thread_join(thread_id_t thread, void **retval) { unsigned k = (unsigned)thread - 1; ++g_joined; *retval = IN.verdict[k < 3 ? k : 2] ? (void *)-1 : (void *)0; }
+void *malloc_nofail(size_t size) { void *p = malloc(size); __CPROVER_assume(p != 0); return p; }
+void pathprint(char *dst, size_t size, const char *format, ...) { (void)format; if (size) dst[0] = 0; }
+void log_fatal(const char *format, ...) { (void)format; }
+void exit(int code) { (void)code; __CPROVER_assume(0); }
 void msg_progress(const char *format, ...) { (void)format; }
 void msg_verbose(const char *format, ...) { (void)format; }
 #endif
@@ -131,6 +146,36 @@ void h_state_filter(void)
 			VERIF_ASSERT(st.parity[l].is_excluded_by_filter == ex, "parity is touched only when selected by a disk rule, or when no file/missing selection is active");
 		}
 	VERIF_CANARY();
+}
+
+/*
+ * state_verify_content (REAL body): it returns - letting state_write go on to the rename - ONLY when the verification
+ * of EVERY content copy succeeded; one failing copy, whichever it is, stops the process before any rename.
+ */
+void h_verify_all(void)
+{
+	static struct snapraid_state st;
+	static struct snapraid_content C[3];
+	int k, allok = 1;
+	VERIF_INPUTS();
+	VERIF_ASSUME(IN.ncopies >= 1 && IN.ncopies <= 3);
+	tommy_list_init(&st.contentlist);
+	for (k = 0; k < 3; ++k)
+		if (k < IN.ncopies) {
+			C[k].content[0] = 'c';
+			C[k].content[1] = 0;
+			tommy_list_insert_tail(&st.contentlist, &C[k].node, &C[k]);
+			allok &= !IN.verdict[k];
+		}
+	g_created = g_joined = g_closed = 0;
+#ifdef VERIF_NATIVE
+	exit(77);
+#endif
+	state_verify_content(&st, IN.crc);
+	/* reached only if the function returned */
+	VERIF_ASSERT(allok, "state_verify_content returns only when every content copy passed its verification");
+	VERIF_ASSERT(g_created == (unsigned)IN.ncopies && g_joined == (unsigned)IN.ncopies && g_closed == (unsigned)IN.ncopies, "every copy is re-read, joined and closed exactly once");
+	VERIF_CANARY(); /* reachable exactly in the all-ok case */
 }
 
 void h_state_write(void)
